@@ -36,7 +36,7 @@ def plan(tier, seed):
 
 def floors(tier):
     return {"distinct_nontrivial": 500, "cls:n=0": 300, "cls:n=1": 300, "cls:n>=2": 300, "cls:form:entity": 200,
-            "cls:form:set_of": 300, "cls:form:predform": 100, "cls:ambient:query": 100, "cls:ambient:rule": 100, "cls:caching_off": 200,
+            "cls:form:set_of": 300, "cls:form:predform": 100, "cls:predform_with_further_properties": 40, "cls:ambient:query": 100, "cls:ambient:rule": 100, "cls:caching_off": 200,
             "cls:equal_valued_distinct_objects": 300, "cls:domain_without_instances_of_the_type": 100, "cls:solutions_equal_by_value": 50, "cls:no_domain_registry_with_subclass_instances": 150,
             "re:The(@.*)?\\.enter": 0}
 
@@ -75,7 +75,12 @@ def cases(spec, ctx):
             flds = [[f, rng.randint(1, 3)] for f in rng.sample(["a", "b"], rng.randint(1, 2))]
             cond = ["and"] + [["cmp", "==", ["v", 0, [["a", f]]], ["lit", v]] for f, v in flds] if len(flds) > 1 else \
                 ["cmp", "==", ["v", 0, [["a", flds[0][0]]]], ["lit", flds[0][1]]]
-            yield {"world": w, "kinds": [k], "cond": cond, "sel": [0], "form": "predform", "fields": flds,
+            extra = None
+            if rng.random() < 0.5:
+                # further properties next to the term: the(t := T(From(d), f=v), t.g >= w)
+                extra = ["cmp", rng.choice([">=", "==", "!=", "<"]), ["v", 0, [["a", rng.choice("ab")]]], ["lit", rng.randint(1, 3)]]
+                cond = ["and", cond, extra]
+            yield {"world": w, "kinds": [k], "cond": cond, "sel": [0], "form": "predform", "fields": flds, "extra": extra,
                    "ambient": rng.choice(["none", "none", "query", "rule"]), "caching": rng.random() < 0.7}
             continue
         if rng.random() < 0.08:
@@ -125,7 +130,11 @@ def run(case, world):
         if case["form"] == "predform":
             from entity_query_language import symbolic_mode, the, From
             with symbolic_mode():
-                q = the(D.CLASSES[case["kinds"][0]](From(doms[0]), **{f: v for f, v in case["fields"]}))
+                term = D.CLASSES[case["kinds"][0]](From(doms[0]), **{f: v for f, v in case["fields"]})
+                if case.get("extra"):
+                    q = the(term, C.build(case["extra"], [term], 0, False))
+                else:
+                    q = the(term)
             xs = None
         else:
             q, xs = H.build_query(case["kinds"], doms, case["cond"], case["sel"], form=case["form"], quant="the", register=False)
@@ -161,6 +170,8 @@ def check_case(case, ctx):
     n = len(exp_rows)
     ctx.cls("cls:n=0" if n == 0 else "cls:n=1" if n == 1 else "cls:n>=2")
     ctx.cls("cls:form:" + case["form"])
+    if case.get("extra"):
+        ctx.cls("cls:predform_with_further_properties")
     ctx.cls("cls:ambient:" + case["ambient"])
     ctx.cls("cls:caching_on" if case["caching"] else "cls:caching_off")
     ctx.cls(f"cls:nvars={len(case['kinds'])}")
